@@ -109,15 +109,38 @@ def run(ctx):
             ctx.broken("behaviour generation for %s produced only %d behaviours" % (name, len(beh)))
         go = ctx.gotest(pkg, "^TestVerif_C16_(Replay|Trace)$", ["c16_test.go"],
                         inputs={"behaviours_%s.ndjson" % name: beh}, label="channel_" + name,
-                        env={"VERIF_RUNS": ctx.pick(25, 250), "VERIF_FORCE_REPS": ctx.pick(40, 120),
-                             "VERIF_SEQNO_ROUNDS": ctx.pick(3, 20)},
+                        env={"VERIF_RUNS": ctx.pick(25, 200), "VERIF_FORCE_REPS": ctx.pick(40, 100),
+                             "VERIF_SEQNO_ROUNDS": ctx.pick(3, 12)},
                         timeout=ctx.pick(900, 3000))
         res = {"go": go, "beh": len(beh), "traces": []}
         if go.rc != 0 or not go.reports:
             return res
         tp = ctx.trace_path(go, "trace_" + name)
-        ok, tr = validate(tp, trace_cfg, None, trace_cfg)
-        res["traces"].append(("trace_" + name, tp, ok, tr))
+        # the recorded runs are independent (each starts with a Reset): validate them in parallel chunks
+        lines = open(tp).read().splitlines()
+        runs, cur = [], None
+        for ln in lines:
+            if '"event":"Reset"' in ln:
+                cur = []
+                runs.append(cur)
+            if cur is None:
+                ctx.broken("trace %s does not start with a Reset" % tp)
+            cur.append(ln)
+        nchunks = ctx.pick(2, 4)
+        chunk_files = []
+        for k in range(nchunks):
+            part = [ln for i, r in enumerate(runs) if i % nchunks == k for ln in r]
+            if not part:
+                continue
+            cp = os.path.join(os.path.dirname(tp), "trace_%s_part%d.ndjson" % (name, k))
+            with open(cp, "w") as f:
+                f.write("\n".join(part) + "\n")
+            chunk_files.append(cp)
+        with concurrent.futures.ThreadPoolExecutor(max_workers=nchunks) as cex:
+            futs = [cex.submit(validate, cp, trace_cfg, None, "%s_part%d" % (trace_cfg, k)) for k, cp in enumerate(chunk_files)]
+            for cp, f in zip(chunk_files, futs):
+                ok, tr = f.result()
+                res["traces"].append((os.path.basename(cp)[:-7], cp, ok, tr))
         if ctx.thorough:
             cap = int(((go.reports.get("trace_" + name) or {}).get("extra") or {}).get("cap") or 0)
             if cap <= 0:
